@@ -732,6 +732,34 @@ def gen(ctx, emit):
                         apply_step(coin, work, mp, cmd)
                         steps.append(cmd)
                     emit(head + " " + ";".join(steps))
+    # ---- signatures with DIFFERENT hash types inside one multisig input (cosigners signed in separate passes), next to inputs
+    # whose sequence numbers are then changed: what one digest computation leaves behind in the checker must not leak into
+    # the next digest of the same check (the ALL signature commits to the other inputs' sequences although a NONE/SINGLE
+    # signature of the same input, verified just before, does not)
+    for coin in COINS:
+        avail = {n for n, _s, _e in S.puzzles(coin)}
+        for ks in (["ms", "p2pkh"], ["p2pkh", "ms", "p2pk"], ["p2pkh", "p2sh_ms"], ["p2wsh_ms", "p2pkh"]):
+            if not set(ks) <= avail:
+                continue
+            for hts in ((2, 1), (3, 1), (0x82, 1), (1, 2), (2, 0x81)) if (ctx.thorough or coin == "btc") else (rng.choice([(2, 1), (3, 1), (1, 2)]),):
+                for seqs in ([0] * len(ks), [0xFFFFFFFE] * len(ks)):
+                    try:
+                        tx = S.sign_tx_mixed(coin, ks, hts, n_out=len(ks), sequences=seqs)
+                    except Exception as e:  # noqa: BLE001
+                        ctx.note("mixed hash-type signing raised %s (%s %s)" % (type(e).__name__, coin, ks))
+                        continue
+                    if tx.bad_solution_count() != 0:
+                        continue
+                    meta = meta_of(coin, tx)
+                    if meta is None:
+                        continue
+                    head = "c06_hist %s %s %s %s" % (coin, txlib.dump_tx(tx), show_us(S.us_of(tx)), meta)
+                    emit(head + " ~", "mixed-hash-types")
+                    for i in range(len(ks)):
+                        emit(head + " seq:%d:%d" % (i, seqs[i] ^ 5), "mixed-hash-types")
+                        emit(head + " seq:%d:%d;seq:%d:%d" % (i, seqs[i] ^ 5, i, seqs[i]), "mixed-hash-types")
+                    emit(head + " oval:0:%d" % (tx.txs_out[0].coin_value + 1), "mixed-hash-types")
+                    emit(head + " lock:%d" % 77, "mixed-hash-types")
     # ---- directed histories: another input's unspent missing while this one is tampered; revert restores validity
     for coin in COINS:
         for ht in (1, 0x81, 3):
